@@ -99,7 +99,28 @@ def lean_part_request(case, rec, ex):
     return base
 
 
-def check_model(ctx, recs):
+def in_model_class(case):
+    """single sum-of-products Einsum with plain accesses, partitioned (if at all) by shape only: the class of C02.model_partitioned"""
+    if len(case["eins"]) != 1:
+        return False
+    e = case["eins"][0]
+    for t in e["terms"]:
+        if t["kind"] != "times":
+            return False
+        for f in t["factors"]:
+            if f[0] == "t" and any(len(i) != 1 or i[0][0] != 1 for i in f[2]):
+                return False
+    if any(len(i) != 1 or i[0][0] != 1 for i in e["oidx"]):
+        return False
+    parts = ((case.get("mapping") or {}).get("partitioning") or {})
+    for out, ps in parts.items():
+        for k, stack in ps.items():
+            if k.startswith("(") or any(not x.startswith(("uniform_shape", "nway_shape")) for x in stack):
+                return False
+    return True
+
+
+def check_model(ctx, recs, only_model_class=False):
     """tie of the composed theorem (C02.model_partitioned) to the real compiler: the model compiler's partitioned nest has
     the real program's loop skeleton and computes, on the sampled input, what the real program computes; its hypotheses
     (PartOK) are decided in Lean for every sample"""
@@ -111,6 +132,8 @@ def check_model(ctx, recs):
         case = r["case"]
         if len(case["eins"]) != 1:
             continue
+        if only_model_class and not in_model_class(case):
+            ctx.stat("model_not_applicable"); continue
         for ex in r["execs"][:1]:
             if not ex.get("ok"):
                 continue
